@@ -164,6 +164,14 @@ fn alphabet(kind: Kind) -> Vec<&'static str> {
 fn check(run: &Run, kind: Kind, text: &str, origin: &str) {
     let t0 = Instant::now();
     clear_panic();
+    let kind_name: &'static str = match kind {
+        Kind::Program => "Program",
+        Kind::Theory => "Theory",
+        Kind::Specification => "Specification",
+        Kind::UserGuide => "UserGuide",
+        Kind::Outline => "Outline",
+    };
+    let _w = run.watch_with("input", "input", text, "input_kind", kind_name);
     let r = std::panic::catch_unwind(std::panic::AssertUnwindSafe(|| stages(kind, text)));
     let dt = t0.elapsed().as_secs_f64();
     run.state();
